@@ -297,6 +297,31 @@ def judge(L, seed):
             if abs(got2 - want2) > tol * 1000 * (1 + abs(want2)) or abs(got2r - want2r) > tol * 1000 * (1 + abs(want2r)):
                 return (f"L={L}: evaluate_at_points at theta={th!r}, phi={ph2!r}, asked after a transform that followed an evaluation at the same theta, "
                         f"gives {got2!r} / {got2r!r}; the expansion in orthonormal harmonics is {want2!r} / {want2r!r}")
+    # alternative entry points agree with the main path: sampling a function through compute_on_grid (complex functions included), the
+    # Cartesian grid (x = sin t cos p, y = sin t sin p, z = cos t), the pure-Python Legendre evaluator (also AT the poles)
+    if L >= 1:
+        th_g, ph_g = sht.grid
+        ycomb = lambda t_, p_: sum(cc[l * (l + 1) + m] * ylm_closed(l, m, t_, p_) for (l, m) in ((0, 0), (1, 1), (1, -1), (1, 0)) if l <= L)
+        vals_cg = sht.compute_on_grid(ycomb)
+        want_cg = ycomb(th_g, ph_g)
+        if np.shape(vals_cg) != np.shape(want_cg) or not close(np.asarray(vals_cg, dtype=complex), want_cg, atol=tol):
+            return f"L={L}: compute_on_grid(f) is not f sampled on the grid (complex-valued f loses its imaginary part?)"
+        if np.shape(sht.analysis(vals_cg)) != (sht.nlm(),):
+            return f"L={L}: samples of a complex function from compute_on_grid analyse to {np.shape(sht.analysis(vals_cg))[0]} coefficients instead of (L+1)^2"
+        xg, yg, zg = sht.grid_cartesian
+        if not (close(xg, np.sin(th_g) * np.cos(ph_g), atol=1e-12) and close(yg, np.sin(th_g) * np.sin(ph_g), atol=1e-12) and close(zg, np.cos(th_g), atol=1e-12)):
+            return f"L={L}: grid_cartesian is not (sin t cos p, sin t sin p, cos t) of the (theta, phi) grid"
+    if L <= 16:
+        from chmpy.shape.assoc_legendre import AssocLegendre as PyLegendre
+        pl = PyLegendre(L)
+        for xq in (0.3, -0.77, 1.0, -1.0, float(sht.cos_theta[0])):
+            got_p = np.array(pl.evaluate_batch(xq), dtype=float)
+            ref_p = np.array(sht.plm.evaluate_batch(xq, result=np.empty(sht.nplm())), dtype=float) if abs(xq) != 1.0 else None
+            want_pole = np.zeros(sht.nplm())
+            want_pole[:L + 1] = np.sqrt((2 * np.arange(L + 1) + 1) / (4 * np.pi)) * np.sign(xq) ** np.arange(L + 1)
+            want_p = ref_p if ref_p is not None else want_pole
+            if got_p.shape != want_p.shape or not np.all(np.isfinite(got_p)) or not close(got_p, want_p, atol=1e-10 * (L + 1)):
+                return f"L={L}: pure-Python AssocLegendre.evaluate_batch({xq}) differs from the compiled evaluator / the closed form at the pole"
     # convention: samples of Y_lm analyse to the unit vector at l(l+1)+m
     if L >= 2:
         th, ph = sht.grid
